@@ -91,6 +91,10 @@ impl Inner for tokio::sync::RwLock<Option<Passkey>> {
     fn all(&self) -> Vec<Passkey> { self.try_read().unwrap().iter().cloned().collect() }
     fn put(&mut self, p: Passkey) { *self.try_write().unwrap() = Some(p); }
 }
+pub fn d_full_pub() -> DiscoverabilitySupport { DiscoverabilitySupport::Full }
+pub fn d_non_pub() -> DiscoverabilitySupport { DiscoverabilitySupport::OnlyNonDiscoverable }
+pub fn d_forced_pub() -> DiscoverabilitySupport { DiscoverabilitySupport::ForcedDiscoverable }
+pub fn hm_cfg(h: Hm) -> Option<HmacSecretConfig> { h.cfg() }
 fn d_full() -> DiscoverabilitySupport { DiscoverabilitySupport::Full }
 fn d_non() -> DiscoverabilitySupport { DiscoverabilitySupport::OnlyNonDiscoverable }
 fn d_forced() -> DiscoverabilitySupport { DiscoverabilitySupport::ForcedDiscoverable }
@@ -127,6 +131,7 @@ pub fn passkey_line(p: &Passkey) -> String {
     let hm = match &p.extensions.hmac_secret { None => "N".to_string(), Some(h) => format!("{}+{}", hexf(&h.cred_with_uv), opt_hex(h.cred_without_uv.as_deref())) };
     format!("{} {} {} {} {} {} {} {}", hexf(&p.credential_id), hexf(p.rp_id.as_bytes()), opt_hex(p.user_handle.as_deref().map(|v| &v[..])), opt_num(p.counter), hexf(&d), hexf(&x), hexf(&y), hm)
 }
+pub fn snap_pub(ps: &[Passkey]) -> String { snap(ps) }
 fn snap(ps: &[Passkey]) -> String {
     let mut v: Vec<String> = ps.iter().map(|p| {
         let (_, x, _) = key_parts(p);
@@ -164,6 +169,7 @@ fn descs(l: &Option<Vec<Vec<u8>>>) -> Option<Vec<PublicKeyCredentialDescriptor>>
     l.as_ref().map(|v| v.iter().map(|i| PublicKeyCredentialDescriptor { ty: PublicKeyCredentialType::PublicKey, id: i.clone().into(), transports: None }).collect())
 }
 fn alg_of(a: i64) -> iana::Algorithm { use coset::iana::EnumI64; iana::Algorithm::from_i64(a).unwrap_or(iana::Algorithm::RS256) }
+pub fn faults_pub(f: &[Option<u8>]) -> String { faults_s(f) }
 fn faults_s(f: &[Option<u8>]) -> String {
     let v: Vec<String> = f.iter().enumerate().filter_map(|(i, c)| c.map(|c| format!("{}={}", i, c))).collect();
     if v.is_empty() { "-".into() } else { v.join(",") }
@@ -233,6 +239,7 @@ fn run_generic<S: Inner + 'static>(ctx: &mut Ctx, prop: &str, w: &World, inner: 
     if let Some(c) = w.hm.cfg() { auth = auth.hmac_secret(c); }
     ctx.line(&format!("au.reset {} {} {} {} {}", prop, w.kind.name(), w.counter_on as u8, w.id_len, w.hm.name()), "");
     for p in &w.preload { ctx.line(&format!("au.load {}", passkey_line(p)), ""); }
+    let mut last_id: Option<Vec<u8>> = None;
     for st in steps {
         *uvst.lock().unwrap() = st.uv;
         auth.store_mut().faults = st.faults.clone();
@@ -249,6 +256,7 @@ fn run_generic<S: Inner + 'static>(ctx: &mut Ctx, prop: &str, w: &World, inner: 
                         Some(k) => { let mut fut = Box::pin(auth.make_credential(req)); poll_n(fut.as_mut(), k) }
                     }
                 });
+                if let Some(p) = auth.store().last_saved.lock().unwrap().clone() { last_id = Some(p.credential_id.to_vec()); }
                 let draws = auth.store().last_saved.lock().unwrap().clone().map(|p| {
                     let (d, x, y) = key_parts(&p);
                     let (s1, s2) = match &p.extensions.hmac_secret { Some(h) => (hexf(&h.cred_with_uv), opt_hex(h.cred_without_uv.as_deref())), None => ("N".into(), "N".into()) };
@@ -262,7 +270,13 @@ fn run_generic<S: Inner + 'static>(ctx: &mut Ctx, prop: &str, w: &World, inner: 
                 ctx.stat(&format!("au.make.{}", r.split(':').next().unwrap()));
                 ctx.line(&format!("au.make {} {} {} {}{}{}", m.enc(), st.uv.enc(), faults_s(&st.faults), draws, cancel, tw), &obs);
             }
-            Op::Get(g) => {
+            Op::Get(g0) => {
+                // an allow list of the single entry "@last" names the credential saved last in this case
+                let mut g1 = g0.clone();
+                if g1.allow.as_ref().map(|v| v.len() == 1 && v[0] == b"@last") == Some(true) {
+                    if let Some(id) = &last_id { g1.allow = Some(vec![id.clone()]); }
+                }
+                let g = &g1;
                 let req = g.real(Some(hmac_input()));
                 let res = guarded(|| {
                     match st.cancel_after {
